@@ -51,7 +51,12 @@ def label_expression(lab, rng, free=False, node=0, dyn=None):
     return rng.choice(forms)
 
 
-def entry_expression(e, rng):
+def entry_expression(e, rng, dyn=None, slot=0):
+    if dyn is not None and e != "I" and rng.random() < 0.2:
+        # a package whose definition belongs to THIS AHB only: the same entry expression means different things in different AHBs
+        key = f"{2000 + slot}P"
+        dyn[key] = f"[{rng.choice(KEYS[e])}]"
+        return "X " + rng.choice([f"[{key}]", f"[{key} 0..1]"])
     return {"T": rng.choice(["X [1]", "X", "X [2] U [1]", "X [1P]"]), "F": rng.choice(["X [3]", "X [1] U [4]"]),
             "K": rng.choice(["X [5]", "X [5] U [1]"]), "I": rng.choice(["X [1] O [501]", "X [501] X [3]"])}[e]
 
@@ -92,7 +97,7 @@ def build_ahb(nodes, rng, soll_to=None, inv_to_kann=False, shared_discriminator=
         else:
             entries = []
             for j, e in enumerate(n["pool"], start=1):
-                ee = entry_expression(e, sub)
+                ee = entry_expression(e, sub, dyn=dyn, slot=16 * i + j)      # (one key per pool entry of this AHB)
                 if e == "I" and inv_to_kann:
                     ee = "Kann"
                 entries.append(ValuePoolEntry(qualifier=f"Q{j}", meaning=f"meaning {j}", ahb_expression=ee))
@@ -126,14 +131,20 @@ for _b in ("REQUIRED", "OPTIONAL", "FORBIDDEN"):
 _DYN_PACKAGES = {}      # id(object built by build_ahb) -> the packages defined for that AHB only
 
 
-def setup_cer(obj=None):
+RC_OTHER = {1: "U", 2: "U", 3: "F", 4: "F", 5: "F", 6: "U"}      # another content evaluation result (for runs that precede the judged one)
+
+
+def setup_cer(obj=None, other=False):
     import ahb
     ahb.configure()
     pk = dict(PACKAGES)
     pk.update(_DYN_PACKAGES.get(id(obj), {}) if obj is not None else {})
     if len(_DYN_PACKAGES) > 20000:
         _DYN_PACKAGES.clear()
-    ahb.set_cer_values(rc=RC, fc=FCS, hints=HINTS, packages=pk)
+    if other:
+        ahb.set_cer_values(rc=RC_OTHER, fc={k: not v for k, v in FCS.items()}, hints=HINTS, packages=pk)
+    else:
+        ahb.set_cer_values(rc=RC, fc=FCS, hints=HINTS, packages=pk)
 
 
 def clone(deep):
@@ -142,9 +153,17 @@ def clone(deep):
     return d2
 
 
-async def real_validate(deep, soll):
-    """-> ('ok', [entry dicts]) | ('error', exception name)"""
+async def real_validate(deep, soll, history=False):
+    """-> ('ok', [entry dicts]) | ('error', exception name). With history: the SAME task first validates the same AHB under another content
+    evaluation result and the other flag value (the judged run must not see anything of it: validation keeps no state between runs)"""
     from ahbicht.validation.validation import validate_deep_anwendungshandbuch
+    if history:
+        d0 = clone(deep)
+        setup_cer(d0, other=True)
+        try:
+            await validate_deep_anwendungshandbuch(d0, soll_is_required=not soll)
+        except BaseException:  # pylint:disable=broad-except  # noqa: BLE001 - only the judged run counts
+            pass
     setup_cer(deep)
     try:
         rs = await validate_deep_anwendungshandbuch(deep, soll_is_required=soll)
@@ -255,7 +274,7 @@ async def check_tree(mode, nodes, obs, sd, idx, acc):
     deep, exprs, _ = build_ahb(nodes, random.Random(rs))
     results = {}
     for soll in (True, False):
-        real = await real_validate(clone(deep), soll)
+        real = await real_validate(clone(deep), soll, history=(idx % 3 == 0))
         acc.c("validations")
         results[soll] = real
         spec = spec_entries(obs["t" if soll else "f"])
@@ -270,6 +289,15 @@ async def check_tree(mode, nodes, obs, sd, idx, acc):
         from ahbicht.validation.validation import validate_segment_level
         for soll in (True, False):
             d2, _, objs2 = build_ahb(nodes, random.Random(rs))
+            if idx % 2 == 0:
+                # history: the same task has just validated the whole AHB under another content evaluation result
+                from ahbicht.validation.validation import validate_deep_anwendungshandbuch as _deep
+                d0 = clone(d2)
+                setup_cer(d0, other=True)
+                try:
+                    await _deep(d0, soll_is_required=not soll)
+                except BaseException:  # pylint:disable=broad-except  # noqa: BLE001 - only the judged call counts
+                    pass
             setup_cer(d2)
             acc.c("validations")
             try:
@@ -445,7 +473,43 @@ def random_nodes(rng, n, labels, pools, inputs=("none", "q1", "q2", "zz")):
     return nodes
 
 
-def trace_validation(res, work, n_traces, max_nodes=30):
+def wide_nodes(rng, fan, where, labels):
+    """an AHB in which ONE node has `fan` children (where: 'roots' | 'groups' | 'segments' | 'elements'), the last few of them with sub-trees of their own"""
+    def node(kind, par):
+        ind, ful = rng.choice(labels).split(".")
+        n = {"kind": kind, "par": par, "lab": {"ind": ind, "ful": ful}, "inp": "none", "pool": ()}
+        if kind == "f":
+            n["inp"] = rng.choice(["none", "text"])
+        return n
+    req = lambda kind, par: dict(node(kind, par), lab={"ind": "MUSS", "ful": "T"})     # the wide node itself is visited
+    nodes = []
+    if where == "roots":
+        for j in range(fan):
+            nodes.append(node("g", 0))
+            if j >= fan - 3:
+                nodes.append(node("s", len(nodes)))
+    elif where == "groups":
+        nodes.append(req("g", 0))
+        for j in range(fan):
+            nodes.append(node("g", 1))
+            if j >= fan - 3:
+                nodes.append(node("s", len(nodes)))
+        nodes.append(node("s", 1))
+    elif where == "segments":
+        nodes.append(req("g", 0))
+        for j in range(fan):
+            nodes.append(node("s", 1))
+            if j >= fan - 3:
+                nodes.append(node("f", len(nodes)))
+    else:
+        nodes.append(req("g", 0))
+        nodes.append(req("s", 1))
+        for j in range(fan):
+            nodes.append(node("f", 2))
+    return nodes
+
+
+def trace_validation(res, work, n_traces, max_nodes=30, wide=()):
     """real results for random large AHBs, decided by TLC against Validate"""
     import ahb  # noqa: F401
     from common import validate_traces
@@ -455,11 +519,17 @@ def trace_validation(res, work, n_traces, max_nodes=30):
     traces = []
 
     async def go():
+        wide_specs = [(f, w) for f in wide for w in ("roots", "groups", "segments", "elements")]
+        rng.shuffle(wide_specs)
         for tid in range(1, n_traces + 1):
-            nodes = random_nodes(rng, rng.randint(5, max_nodes), labels if rng.random() < 0.8 else labels[:6], pools)
+            if tid <= len(wide_specs):
+                # wide fan-out (limits of batching / chunking sit at powers of two and round numbers)
+                nodes = wide_nodes(rng, wide_specs[tid - 1][0], wide_specs[tid - 1][1], labels[:9])
+            else:
+                nodes = random_nodes(rng, rng.randint(5, max_nodes), labels if rng.random() < 0.8 else labels[:6], pools)
             soll = rng.random() < 0.5
             deep, exprs, _ = build_ahb(nodes, random.Random(tid * 7919 + seed()))
-            real = await real_validate(deep, soll)
+            real = await real_validate(deep, soll, history=True)
             if real[0] == "exception":
                 res.violation(f"validation of a random AHB with {len(nodes)} nodes raised {real[1]}; expressions {exprs}", {"nodes": nodes, "soll": soll, "seed": seed(), "idx": tid})
                 continue
@@ -478,7 +548,7 @@ def trace_validation(res, work, n_traces, max_nodes=30):
     asyncio.run(go())
     slim = [{k: v for k, v in t.items() if k != "exprs"} for t in traces]
     t2, acc, diag = validate_traces("ValidationTrace", "ValidationTrace.cfg", slim, work, tag="valtrace")
-    res.add_tlc(f"ValidationTrace: real results for {len(traces)} random AHBs of 5..{max_nodes} nodes decided by TLC against Validate", t2)
+    res.add_tlc(f"ValidationTrace: real results for {len(traces)} random AHBs of 5..{max_nodes} nodes (and AHBs with a fan-out of {list(wide)}) decided by TLC against Validate", t2)
     res.count("traces_validated_against_impl", len(traces))
     for t in traces:
         res.distinct(("valtrace", repr(t["nodes"]), t["soll"]))
